@@ -74,10 +74,24 @@ func (self *Compiler) compileStmt(node ast.AnalyzedStatement) {
 			self.compileExpr(node.ReturnValue)
 		}
 
+		// Leaving the function also leaves every `try` block which is active here: remove their handlers.
+		for i := uint(0); i < self.tryDepth; i++ {
+			self.insert(newPrimitiveInstruction(Opcode_PopTryLabel), node.Span())
+		}
+
 		self.insert(newOneStringInstruction(Opcode_Jump, self.CurrFn().CleanupLabel), node.Span())
 	case ast.BreakStatementKind:
+		// Remove the handlers of the `try` blocks entered inside of the loop body.
+		for i := self.currLoop().tryDepth; i < self.tryDepth; i++ {
+			self.insert(newPrimitiveInstruction(Opcode_PopTryLabel), node.Span())
+		}
+
 		self.insert(newOneStringInstruction(Opcode_Jump, self.currLoop().labelBreak), node.Span())
 	case ast.ContinueStatementKind:
+		for i := self.currLoop().tryDepth; i < self.tryDepth; i++ {
+			self.insert(newPrimitiveInstruction(Opcode_PopTryLabel), node.Span())
+		}
+
 		self.insert(newOneStringInstruction(Opcode_Jump, self.currLoop().labelContinue), node.Span())
 	case ast.LoopStatementKind:
 		node := node.(ast.AnalyzedLoopStatement)
